@@ -207,7 +207,7 @@ func runEffects(o *opts) {
 			p = newProject(o, base, "in")
 		}
 		p.init()
-		shape := []string{"file-input", "file-input", "skip-file-output", "dir-input", "skip-dir-output", "link-input"}[rr.intn(6)]
+		shape := []string{"file-input", "file-input", "skip-file-output", "dir-input", "skip-dir-output", "link-input", "input-below-norec-output", "input-below-norec-output"}[rr.intn(8)]
 		rec := &StageRec{Cmd: "echo s.yaml >> .runlog"}
 		var pool [][]byte
 		must(os.WriteFile(filepath.Join(p.Root, "out.txt"), genContent(rr, &pool), 0o644))
@@ -223,6 +223,20 @@ func runEffects(o *opts) {
 			must(os.WriteFile(filepath.Join(p.Root, "real.txt"), []byte("real"), 0o644))
 			must(os.Symlink("real.txt", filepath.Join(p.Root, "lnk.txt")))
 			rec.In = []Art{{Path: "real.txt"}}
+		case "input-below-norec-output":
+			// a non-recursive directory output with several adjacent sub-directories; files below
+			// them are not owned by anybody and may be plain inputs
+			d := filepath.Join(p.Root, "nr")
+			must(os.MkdirAll(d, 0o755))
+			must(os.WriteFile(filepath.Join(d, "top.txt"), genContent(rr, &pool), 0o644))
+			nsub := 2 + rr.intn(3)
+			for k := 0; k < nsub; k++ {
+				sd := filepath.Join(d, fmt.Sprintf("cfg_%c", 'a'+k))
+				must(os.MkdirAll(sd, 0o755))
+				must(os.WriteFile(filepath.Join(sd, "params.txt"), genContent(rr, &pool), 0o644))
+			}
+			rec.Out = append(rec.Out, Art{Path: "nr", IsDir: true, NoRec: true})
+			rec.In = []Art{{Path: fmt.Sprintf("nr/cfg_%c/params.txt", 'a'+rr.intn(nsub))}}
 		case "skip-file-output":
 			must(os.WriteFile(filepath.Join(p.Root, "metrics.json"), []byte(`{"acc": 1}`), 0o644))
 			rec.Out = append(rec.Out, Art{Path: "metrics.json", Skip: true})
